@@ -81,8 +81,10 @@ func RunHistory(i int, withKnown bool) HistResult {
 	}
 	for _, hd := range helds {
 		now := vh.Recover(hd.Reread)
-		tr.WriteString(CanonPtr(now))
-		tr.WriteString("\n")
+		if !strings.HasSuffix(hd.Desc, "error value") { // message text is not a compared result ("Required key" lists keys in map order)
+			tr.WriteString(CanonPtr(now))
+			tr.WriteString("\n")
+		}
 		if now != hd.Snap {
 			res.Diffs = append(res.Diffs, vh.Diff{Component: "C11-stable", Input: input,
 				Impl:  fmt.Sprintf("value handed out by %s reads %q at the end of the history", hd.Desc, now),
